@@ -178,4 +178,89 @@ theorem av_orthAgainst_sub (qs : List (Array K)) (h : Array K) :
     have := Submodule.add_mem _ h3 h2
     rwa [sub_add_sub_cancel] at this
 
+
+/-! ### `gsCols` -/
+
+theorem gsCols_nil (stol : K) (qs : List (Array K)) : @gsCols K 𝔽 n S stol qs [] = .ok qs := rfl
+
+theorem gsCols_cons (stol : K) (qs : List (Array K)) (g : Array K) (rest : List (Array K)) :
+    @gsCols K 𝔽 n S stol qs (g :: rest)
+      = if sq (@dotS K 𝔽 S (@orthAgainst K 𝔽 n S qs g) (@orthAgainst K 𝔽 n S qs g)) < stol
+        then .error .BadRegularization
+        else @gsCols K 𝔽 n S stol (qs ++ [scaleA sq n (@orthAgainst K 𝔽 n S qs g)
+          (sq (@dotS K 𝔽 S (@orthAgainst K 𝔽 n S qs g) (@orthAgainst K 𝔽 n S qs g)))]) rest := rfl
+
+theorem dotS_self_nonneg (a : Array K) : 0 ≤ @dotS K 𝔽 S a a := by
+  rw [dotS_eq]; exact dotL_self_nonneg S _
+
+/-- **invariants of the Gram–Schmidt loop** (`V` any subspace containing all columns, e.g. the
+    kernel of the normal matrix) -/
+theorem gsCols_spec (hsq : IsSqrt sq) (hS : ∀ k ∈ S, k < n) {stol : K} (hstol : 0 < stol)
+    (V : Submodule K (Fin n → K)) (cols : List (Array K)) :
+    ∀ (qs G : List (Array K)), @gsCols K 𝔽 n S stol qs cols = .ok G → OrthoN sq S qs →
+      (∀ q ∈ qs, av sq n q ∈ V) → (∀ g ∈ cols, av sq n g ∈ V) →
+      OrthoN sq S G ∧ (∀ q ∈ G, av sq n q ∈ V) ∧ (∀ q ∈ qs, q ∈ G)
+        ∧ (∀ g ∈ cols, av sq n g ∈ Submodule.span K (av sq n '' {q | q ∈ G})) := by
+  induction cols with
+  | nil =>
+    intro qs G hG ho hV _
+    rw [gsCols_nil] at hG
+    cases hG
+    exact ⟨ho, hV, fun q hq => hq, fun g hg => by cases hg⟩
+  | cons g rest ih =>
+    intro qs G hG ho hV hcols
+    rw [gsCols_cons] at hG
+    set g' := @orthAgainst K 𝔽 n S qs g with hg'
+    set pv := sq (@dotS K 𝔽 S g' g') with hpv
+    by_cases hlt : pv < stol
+    · rw [if_pos hlt] at hG; cases hG
+    rw [if_neg hlt] at hG
+    have hpos : 0 < pv := lt_of_lt_of_le hstol (not_lt.1 hlt)
+    have hpp : pv * pv = @dotS K 𝔽 S g' g' := hsq.mul_self _ (dotS_self_nonneg sq g')
+    have hne : pv ≠ 0 := ne_of_gt hpos
+    set gh := scaleA sq n g' pv with hgh
+    -- the new column is orthogonal to the old ones and normalised
+    have h0 : ∀ q ∈ qs, @dotS K 𝔽 S q gh = 0 := fun q hq => by
+      rw [dotS_scaleA sq hS, dotS_orthAgainst_zero sq hS qs ho g q hq, zero_div]
+    have h1 : @dotS K 𝔽 S gh gh = 1 := by
+      rw [dotS_scaleA sq hS, dotS_comm, dotS_scaleA sq hS, ← hpp]; field_simp
+    have ho' : OrthoN sq S (qs ++ [gh]) := by
+      refine ⟨List.pairwise_append.2 ⟨ho.1, List.pairwise_singleton _ _, ?_⟩, ?_⟩
+      · intro a ha b hb
+        rw [List.mem_singleton.1 hb]; exact h0 a ha
+      · intro q hq
+        rcases List.mem_append.1 hq with hq | hq
+        · exact ho.2 q hq
+        · rw [List.mem_singleton.1 hq]; exact h1
+    have hspan_le : Submodule.span K (av sq n '' {q | q ∈ qs}) ≤ V :=
+      Submodule.span_le.2 fun v ⟨q, hq, hv⟩ => hv ▸ hV q hq
+    have hdiff : av sq n g - av sq n g' ∈ Submodule.span K (av sq n '' {q | q ∈ qs}) :=
+      av_orthAgainst_sub sq (n := n) (S := S) qs g
+    have hg'V : av sq n g' ∈ V := by
+      have h2 := Submodule.sub_mem V (hcols g List.mem_cons_self) (hspan_le hdiff)
+      rwa [sub_sub_cancel] at h2
+    have hghV : av sq n gh ∈ V := by
+      rw [hgh, av_scaleA]; exact Submodule.smul_mem _ _ hg'V
+    have hV' : ∀ q ∈ qs ++ [gh], av sq n q ∈ V := fun q hq => by
+      rcases List.mem_append.1 hq with hq | hq
+      · exact hV q hq
+      · rw [List.mem_singleton.1 hq]; exact hghV
+    obtain ⟨r1, r2, r3, r4⟩ := ih (qs ++ [gh]) G hG ho' hV' (fun x hx => hcols x (List.mem_cons_of_mem _ hx))
+    refine ⟨r1, r2, fun q hq => r3 q (List.mem_append_left _ hq), ?_⟩
+    intro x hx
+    rcases List.mem_cons.1 hx with rfl | hx
+    · -- av x = (av x − av g') + pv • av gh
+      have hsubG : av sq n '' {q | q ∈ qs} ⊆ av sq n '' {q | q ∈ G} :=
+        Set.image_mono fun q (hq : q ∈ qs) => (r3 q (List.mem_append_left _ hq) : q ∈ G)
+      have e1 := Submodule.span_mono hsubG hdiff
+      have e2 : av sq n g' ∈ Submodule.span K (av sq n '' {q | q ∈ G}) := by
+        have : av sq n g' = pv • av sq n gh := by
+          rw [hgh, av_scaleA, smul_smul, mul_inv_cancel₀ hne, one_smul]
+        rw [this]
+        exact Submodule.smul_mem _ _ (Submodule.subset_span
+          ⟨gh, r3 gh (List.mem_append_right _ (List.mem_singleton.2 rfl)), rfl⟩)
+      have := Submodule.add_mem _ e1 e2
+      rwa [sub_add_cancel] at this
+    · exact r4 x hx
+
 end Gama.Ls.Env
